@@ -169,35 +169,40 @@ Section Generic.
   Variable cfg: bcfg.
   Variable G : list string -> js -> Prop.
   Hypothesis G_mono : forall ks ks' d, incl ks ks' -> G ks d -> G ks' d.
-  Hypothesis G_ty : forall ks n, is_type_name n = true -> G ks (render (ty_sk n)).
-  Hypothesis G_any : forall ks, G ks (render sk0).
-  Hypothesis G_arr : forall ks o u, (forall d, o = Some d -> G ks d) -> G ks (render (arr_sk o u)).
-  Hypothesis G_dict : forall ks o, (forall d, o = Some d -> G ks d) -> G ks (render (dict_sk o)).
-  Hypothesis G_tuple : forall ks l, Forall (G ks) l -> G ks (render (tuple_sk l)).
-  Hypothesis G_union : forall ks l, l <> [] -> Forall (G ks) l -> G ks (render (union_sk l)).
-  Hypothesis G_ref : forall ks c, In c ks -> G ks (render (ref_sk (cfg.(c_prefix) ++ "/" ++ c))).
+  (* Sp: the same property on schema OBJECTS (before rendering); Sp := fun ks s => G ks (render s) is always possible,
+     a structural Sp lets an instance look inside the object when a keyword is set afterwards *)
+  Variable Sp : list string -> sk -> Prop.
+  Hypothesis S_G : forall ks s, Sp ks s -> G ks (render s).
+  Hypothesis S_mono : forall ks ks' s, incl ks ks' -> Sp ks s -> Sp ks' s.
+  Hypothesis G_ty : forall ks n, is_type_name n = true -> Sp ks (ty_sk n).
+  Hypothesis G_any : forall ks, Sp ks sk0.
+  Hypothesis G_arr : forall ks o u, (forall d, o = Some d -> G ks d) -> Sp ks (arr_sk o u).
+  Hypothesis G_dict : forall ks o, (forall d, o = Some d -> G ks d) -> Sp ks (dict_sk o).
+  Hypothesis G_tuple : forall ks l, Forall (G ks) l -> Sp ks (tuple_sk l).
+  Hypothesis G_union : forall ks l, l <> [] -> Forall (G ks) l -> Sp ks (union_sk l).
+  Hypothesis G_ref : forall ks c, In c ks -> Sp ks (ref_sk (cfg.(c_prefix) ++ "/" ++ c)).
   Hypothesis G_obj : forall ks c props req,
-      (forall k d, In (k, d) props -> G ks d) -> NoDup req -> G ks (render (obj_sk c props req)).
+      (forall k d, In (k, d) props -> G ks d) -> NoDup req -> Sp ks (obj_sk c props req).
   Hypothesis G_ntobj : forall ks props req,
-      (forall k d, In (k, d) props -> G ks d) -> NoDup req -> G ks (render (ntobj_sk props req)).
-  Hypothesis G_default : forall ks s d, G ks (render s) -> G ks (render (set_default s d)).
+      (forall k d, In (k, d) props -> G ks d) -> NoDup req -> Sp ks (ntobj_sk props req).
+  Hypothesis G_default : forall ks s d, Sp ks s -> Sp ks (set_default s d).
   Hypothesis G_defs : forall ks s st,
-      G ks (render s) -> (forall c d, In (c, d) st -> G ks d) -> G ks (render (set_defs s st)).
-  Hypothesis G_schema : forall ks s u, G ks (render s) -> G ks (render (set_schema s u)).
+      Sp ks s -> (forall c d, In (c, d) st -> G ks d) -> Sp ks (set_defs s st).
+  Hypothesis G_schema : forall ks s u, Sp ks s -> Sp ks (set_schema s u).
   Hypothesis Hnodup : tab_nodup E.
 
   Definition Inv (st: defs) : Prop := forall c d, In (c, d) st -> G (keys st) d.
 
   Definition rec_ok (rec: ty -> defs -> sres (sk * defs)) : Prop :=
     forall t st s st', rec t st = SOk (s, st') -> Inv st ->
-                       Inv st' /\ G (keys st') (render s) /\ incl (keys st) (keys st').
+                       Inv st' /\ Sp (keys st') s /\ incl (keys st) (keys st').
 
   Lemma or_none_ok ks a s : G ks (render s) -> forall d, or_none a s = Some d -> G ks d.
   Proof. unfold or_none. destruct (is_any a); intros H d Hd; inversion Hd; subst; exact H. Qed.
 
   Lemma map_st_ok rec ts :
     Forall (fun t => forall st s st', rec t st = SOk (s, st') -> Inv st ->
-                                      Inv st' /\ G (keys st') (render s) /\ incl (keys st) (keys st')) ts ->
+                                      Inv st' /\ Sp (keys st') s /\ incl (keys st) (keys st')) ts ->
     forall ds st ss st', map_st rec ts ds st = SOk (ss, st') -> Inv st ->
                       Inv st' /\ Forall (G (keys st')) ss /\ incl (keys st) (keys st') /\ List.length ss = List.length ts.
   Proof.
@@ -209,7 +214,7 @@ Section Generic.
       destruct (Ht _ _ _ E1 HI) as (HI1 & HG1 & Hk1).
       destruct (IH _ _ _ _ E2 HI1) as (HI2 & HF2 & Hk2 & Hlen).
       repeat split; auto.
-      + constructor; auto. eapply G_mono; eauto.
+      + constructor; auto. apply S_G. apply G_default. eapply S_mono; eauto.
       + eapply incl_tran; eauto.
       + simpl. rewrite Hlen. reflexivity.
   Qed.
@@ -228,7 +233,7 @@ Section Generic.
       apply IH in Hf; auto.
       + destruct Hf as (HI2 & Hp2 & Hn2 & Hk2). repeat split; auto. eapply incl_tran; eauto.
       + intros k d Hin. apply in_aset in Hin. destruct Hin as [[_ Hd]|Hin].
-        * subst d. apply G_default. exact HG1.
+        * subst d. apply S_G. apply G_default. exact HG1.
         * eapply G_mono; [exact Hk1|]. eapply Hp; eauto.
       + destruct (f_req f).
         * rewrite <- app_assoc. simpl. exact Hnd.
@@ -252,14 +257,14 @@ Section Generic.
              inversion Hs; subst; repeat split; auto using incl_refl; apply G_ty; reflexivity).
       + rewrite sf_list in Hs. destruct (schema_fuel E cfg 0 t st) as [[s1 st1]| |] eqn:E1; try discriminate.
         inversion Hs; subst. destruct (IHt _ _ _ E1 HI) as (A & B & C). repeat split; auto.
-        apply G_arr. apply or_none_ok. exact B.
+        apply G_arr. apply or_none_ok. apply S_G. exact B.
       + rewrite sf_wrap in Hs. exact (IHt _ _ _ Hs HI).
       + rewrite sf_set in Hs. destruct (schema_fuel E cfg 0 t st) as [[s1 st1]| |] eqn:E1; try discriminate.
         inversion Hs; subst. destruct (IHt _ _ _ E1 HI) as (A & B & C). repeat split; auto.
-        apply G_arr. apply or_none_ok. exact B.
+        apply G_arr. apply or_none_ok. apply S_G. exact B.
       + rewrite sf_dict in Hs. destruct (schema_fuel E cfg 0 t st) as [[s1 st1]| |] eqn:E1; try discriminate.
         inversion Hs; subst. destruct (IHt _ _ _ E1 HI) as (A & B & C). repeat split; auto.
-        apply G_dict. apply or_none_ok. exact B.
+        apply G_dict. apply or_none_ok. apply S_G. exact B.
       + rewrite sf_tuple in Hs. destruct (map_st (schema_fuel E cfg 0) ts [] st) as [[ss st1]| |] eqn:E1; try discriminate.
         inversion Hs; subst. destruct (map_st_ok _ _ H _ _ _ _ E1 HI) as (A & B & C & _). repeat split; auto.
       + rewrite sf_union in Hs. destruct ts as [|t0 tr]; try discriminate.
@@ -282,14 +287,14 @@ Section Generic.
              inversion Hs; subst; repeat split; auto using incl_refl; apply G_ty; reflexivity).
       + rewrite sf_list in Hs. destruct (schema_fuel E cfg (S fuel) t st) as [[s1 st1]| |] eqn:E1; try discriminate.
         inversion Hs; subst. destruct (IHt _ _ _ E1 HI) as (A & B & C). repeat split; auto.
-        apply G_arr. apply or_none_ok. exact B.
+        apply G_arr. apply or_none_ok. apply S_G. exact B.
       + rewrite sf_wrap in Hs. exact (IHt _ _ _ Hs HI).
       + rewrite sf_set in Hs. destruct (schema_fuel E cfg (S fuel) t st) as [[s1 st1]| |] eqn:E1; try discriminate.
         inversion Hs; subst. destruct (IHt _ _ _ E1 HI) as (A & B & C). repeat split; auto.
-        apply G_arr. apply or_none_ok. exact B.
+        apply G_arr. apply or_none_ok. apply S_G. exact B.
       + rewrite sf_dict in Hs. destruct (schema_fuel E cfg (S fuel) t st) as [[s1 st1]| |] eqn:E1; try discriminate.
         inversion Hs; subst. destruct (IHt _ _ _ E1 HI) as (A & B & C). repeat split; auto.
-        apply G_dict. apply or_none_ok. exact B.
+        apply G_dict. apply or_none_ok. apply S_G. exact B.
       + rewrite sf_tuple in Hs. destruct (map_st (schema_fuel E cfg (S fuel)) ts [] st) as [[ss st1]| |] eqn:E1; try discriminate.
         inversion Hs; subst. destruct (map_st_ok _ _ H _ _ _ _ E1 HI) as (A & B & C & _). repeat split; auto.
       + rewrite sf_union in Hs. destruct ts as [|t0 tr]; try discriminate.
@@ -300,7 +305,8 @@ Section Generic.
         destruct (fields_fold (schema_fuel E cfg fuel) fs [] [] st) as [[[props req] st1]| |] eqn:Ef; try discriminate.
         apply (fields_ok _ IHf) in Ef; auto.
         * destruct Ef as (A & B & C & D).
-          assert (HGo: G (keys st1) (render (obj_sk c props req))) by (apply G_obj; auto).
+          assert (HSo: Sp (keys st1) (obj_sk c props req)) by (apply G_obj; auto).
+          assert (HGo: G (keys st1) (render (obj_sk c props req))) by (apply S_G; exact HSo).
           cbv zeta in Hs. destruct (c_all_refs cfg).
           -- inversion Hs; subst. repeat split.
              ++ apply inv_aset; auto.
@@ -328,10 +334,10 @@ Section Generic.
     destruct (schema_fuel E cfg fuel t st) as [[s st1]| |] eqn:E1; try discriminate.
     inversion Hb; subst. destruct (schema_inv _ _ _ _ _ E1 HI) as (A & B & C).
     repeat split; auto.
-    assert (B1: G (keys st') (render match uri with Some u => set_schema s u | None => s end))
+    assert (B1: Sp (keys st') match uri with Some u => set_schema s u | None => s end)
       by (destruct uri; auto).
-    destruct wd; auto. destruct st' as [|p r] eqn:Est; auto.
-    all: try (rewrite <- Est in *; apply G_defs; auto).
+    destruct wd; [|apply S_G; exact B1]. destruct st' as [|p r] eqn:Est; [apply S_G; exact B1|].
+    rewrite <- Est in *. apply S_G. apply G_defs; auto.
   Qed.
 
   (* every output of a sequence of builds on one context, and every definition collected,
